@@ -25,10 +25,10 @@ theorem binop_frag {env : Env} {η : Hp} {op : BinOp} {tl ty : Ty} {a b : Val} (
       | (obtain ⟨x, rfl⟩ := hasTy_bool ha; obtain ⟨y, rfl⟩ := hasTy_bool hb)
       | (have ha' := hasTy_unit ha; have hb' := hasTy_unit hb; subst ha'; subst hb')) <;>
     (first
-      | (left; exact ⟨_, rfl, by simp [HasTy, binResTy]⟩)
+      | (left; exact ⟨_, rfl, by simp [HasTy, binResTy, wrap_wrap]⟩)
       | (by_cases hy : y = 0
          · right; exact ⟨"integer divide by zero", by simp [Sem.binop, hy]⟩
-         · left; simp [Sem.binop, hy, HasTy, binResTy]))
+         · left; simp [Sem.binop, hy, HasTy, binResTy, wrap_wrap]))
 
 /-- the unary operators of the fragment -/
 theorem unop_frag {env : Env} {η : Hp} {op : UnOp} {te ty : Ty} {a : Val} (hok : unOK op te ty = true) (ha : HasTy env η a te) :
@@ -40,7 +40,7 @@ theorem unop_frag {env : Env} {η : Hp} {op : UnOp} {te ty : Ty} {a : Val} (hok 
     rename_i n s
     have := scalarEq_eq hok; subst this
     obtain ⟨x, rfl⟩ := hasTy_int ha
-    exact ⟨_, rfl, ⟨rfl, rfl⟩⟩
+    exact ⟨_, rfl, ⟨rfl, rfl, wrap_wrap _ _ _⟩⟩
   | not =>
     simp only [unOK, Bool.and_eq_true] at hok
     have h1 := scalarEq_eq hok.1; have h2 := scalarEq_eq hok.2; subst h1; subst h2
